@@ -1,7 +1,7 @@
 (* C05 - extrema are exact, padding is mirrored, envelopes are evaluated on the sample grid.
    Statements only; every proof is [exact <lemma of proofs/ExtremaFacts.v>]. *)
 From Coq Require Import ZArith QArith Qround List Bool Lia Sorted.
-From EmdV Require Import lib.NpLite model.Extrema proofs.ExtremaFacts.
+From EmdV Require Import lib.NpLite model.Extrema model.SiftCore model.Envelope proofs.ExtremaFacts proofs.EnvelopeFacts.
 Import ListNotations.
 Open Scope Z_scope.
 
@@ -90,6 +90,39 @@ Example c05_premises_hold :
   = Padded [-6; -4; -2; 0; 2; 4; 6; 8; 10; 12] [0; 0; 0; 0; 0; 0; 0; 0; 0; 0].
 Proof. exact ExtremaFacts.c05_premises_hold. Qed.
 
+(* ---- the envelope itself: the interpolant (FITPACK spline / PCHIP) is an ORACLE [interp locs mags t] ---- *)
+Section EnvelopeTheorems.
+  Variable A : Type.
+  Variable inj : Z -> A.
+  Variable interp : list Z -> list Z -> Z -> A.
+
+  (* with a pad width >= 1 an envelope exists exactly when there are at least two extrema of its kind *)
+  Theorem envelope_none_iff : forall x p m, (1 <= p)%nat ->
+    (envelope A interp x p m = None <-> (length (fst (extrema m x)) <= 1)%nat).
+  Proof. exact (EnvelopeFacts.envelope_none_iff A interp). Qed.
+
+  (* one value per input sample: sample k holds the selected interpolant through the padded extrema evaluated
+     at that sample's own integer time index k *)
+  Theorem envelope_is_interpolant_on_grid : forall x p m L M, (1 <= p)%nat ->
+    get_padded_extrema x p m = Padded L M ->
+    envelope A interp x p m = Some (map (interp L M) (zrange 0 (Z.of_nat (length x)))) /\
+    (forall k, (k < length x)%nat ->
+       nth_error (map (interp L M) (zrange 0 (Z.of_nat (length x)))) k = Some (interp L M (Z.of_nat k))).
+  Proof. exact (EnvelopeFacts.envelope_is_interpolant_on_grid A interp). Qed.
+
+  Theorem envelope_length : forall x p m e, envelope A interp x p m = Some e -> length e = length x.
+  Proof. exact (EnvelopeFacts.envelope_length A interp). Qed.
+
+  (* under the interpolation contract (the interpolant passes through its knots) the upper envelope passes
+     through every unrefined peak, the lower through every trough, the combined through every |x| peak *)
+  Theorem envelope_through_extrema : forall x p m e i,
+    (forall L M j t v, StronglySorted Z.lt L -> length L = length M ->
+        nth_error L j = Some t -> nth_error M j = Some v -> interp L M t = inj v) ->
+    (1 <= p)%nat -> envelope A interp x p m = Some e -> In i (fst (extrema m x)) ->
+    nth_error e i = Some (inj (match m with AbsPeaks => Z.abs (nth i x 0) | _ => nth i x 0 end)).
+  Proof. exact (EnvelopeFacts.envelope_through_extrema A inj interp). Qed.
+End EnvelopeTheorems.
+
 Print Assumptions find_maxima_spec.
 Print Assumptions find_maxima_sorted.
 Print Assumptions troughs_spec.
@@ -105,3 +138,7 @@ Print Assumptions env_grid_q_spec.
 Print Assumptions parabolic_vertex_close.
 Print Assumptions env_grid_v0_refuted.
 Print Assumptions c05_premises_hold.
+Print Assumptions envelope_none_iff.
+Print Assumptions envelope_is_interpolant_on_grid.
+Print Assumptions envelope_length.
+Print Assumptions envelope_through_extrema.
